@@ -18,7 +18,7 @@ func (prop) New() core.Runner { return fc.New("C02") }
 func (prop) Rule() string {
 	return "cases: `new` (builder.NewPipelineBuilder, real constants C=262144 B=8192), `new pipe` (same through file.ChunkPipe + builder.FeedPipeline; the model side runs Aurora.ChunkPipe — buffer, cursor, Write, Close — in front of the pipeline model and both sides report the number and a chained digest of the pieces that left the pipe; dedicated `pp*` / `fix-pipe-*` cases write 2..6 pieces drawn from short (1..C-1, stay buffered) and long (C..2.5C) lengths in the orders short-long, long-short-long, short-short-long-short, long-long-short, short-long-short-long, random, with zero-length writes interleaved, or one source in C+1 / C-1 / C / 1.5C / 2C+1 / random pieces behind a short first write, every write with its own non-periodic source; direct oracle: the bytes read out of the pipe are the bytes written, in order, and only the last piece is shorter than C) or " +
 		"`new feed <shape>` (the written bytes reach builder.FeedPipeline at `sum` through a reader of that shape: bytes.Reader, iotest.DataErrReader = last bytes TOGETHER with io.EOF in 1 KiB pieces, chunk<k> = k-byte pieces with io.EOF on the last, OneByteReader, HalfReader, HalfReader over DataErrReader; every Read result is annotated, the model checks it is admissible and runs Aurora.FeedPipeline.writes; oracle feedpipeline-bytes-dropped: the bytes handed to the pipeline are the bytes the reader delivered), " +
-		"`parup reps src…` (concurrent uploads sharing the process-wide BMT pool: uploader 1 stores a 2..4-chunk content reps times while 12 uploaders keep storing a 50-byte content and optionally one a <= 1-chunk content; every reference must equal the independent format implementation's — par-ref-not-format-hash — and the sequential model's; 40 s watchdog par-hang; these cases run last), or " +
+		"`parup reps src…` (concurrent uploads sharing the process-wide BMT pool: uploader 1 stores a 2..4-chunk content reps = 8..14 times while 12 uploaders keep storing a 50-byte content and one a <= 1-chunk content; every reference must equal the independent format implementation's — par-ref-not-format-hash — and the sequential model's; 40 s watchdog par-hang; these cases run last), or " +
 		"`new small c b` (the same feeder/bmt/store/hashtrie writers assembled with chunk size c in {32,64,96,100} and branching b in {2,3,4,5,8}: trees up to the 8-level limit, " +
 		"chunk counts b^k-1, b^k, b^k+1, and 2^7+1 chunks for the trie-full error); content lengths 0,1,31..33,63..65,127..129,4095..4097, C-1,C,C+1,2C-1,2C,2C+1,3C, random; " +
 		"segmentations: one write, fixed pieces 1/7/31/32/33/1000/4096/C/C+1/3C/random, random cuts with zero-length writes, cuts next to chunk boundaries; then `sum`. " +
@@ -35,7 +35,7 @@ func pow(b, k int) int {
 }
 
 func (prop) Gen(r *core.Rand, tier string) []core.Case {
-	nSmall, nMed, nBig, nTiny, nPipe, nFeed, nPar := 110, 10, 7, 90, 16, 16, 1
+	nSmall, nMed, nBig, nTiny, nPipe, nFeed, nPar := 110, 10, 7, 90, 16, 16, 0
 	if tier == "thorough" {
 		nSmall, nMed, nBig, nTiny, nPipe, nFeed, nPar = 600, 60, 20, 700, 150, 150, 6
 	}
@@ -269,9 +269,9 @@ func (prop) Gen(r *core.Rand, tier string) []core.Case {
 		}
 		cs = append(cs, core.Case{ID: id, NT: true, Ops: []string{ops}})
 	}
-	par("fix-parallel-uploads", 6, fmt.Sprintf("g:4243:%d", 3*C+12345))
+	par("fix-parallel-uploads", 12, fmt.Sprintf("g:4243:%d", 3*C+12345), "g:4244:137000")
 	for i := 0; i < nPar; i++ {
-		par(fmt.Sprintf("par%d", i), r.Range(3, 6), fmt.Sprintf("g:%d:%d", r.Intn(100000), r.Range(2*C, 4*C)), fmt.Sprintf("g:%d:%d", r.Intn(100000), r.Range(1, C+5)))
+		par(fmt.Sprintf("par%d", i), r.Range(8, 14), fmt.Sprintf("g:%d:%d", r.Intn(100000), r.Range(2*C, 4*C)), fmt.Sprintf("g:%d:%d", r.Intn(100000), r.Range(1, C+5)))
 	}
 	return cs
 }
